@@ -41,22 +41,22 @@ CasesOf(g) == IF g = "misc" THEN MiscCases ELSE UNION {PairCases(i) : i \in {j \
 SpaceOK(sp) ==
   LET m == RefRgbToXyz(sp, SpaceWhite(sp))
   IN /\ NearSeq(FxMatVec(m, Ones3), WP(SpaceWhite(sp)), SpaceTight)
-     /\ NearSeq(MatMul3(m, Inv3(m)), I3, Tight)
-     /\ NearSeq(MatMul3(Inv3(m), m), I3, Tight)
+     /\ NearSeq(MatMul3T(m, Inv3T(m)), I3, Tight)
+     /\ NearSeq(MatMul3T(Inv3T(m), m), I3, Tight)
 
 PairOK(a, b, mth) ==
   LET M == Cone(mth)
-      Minv == Inv3(M)
+      Minv == Inv3T(M)
       ab == AdaptRef(WP(a), WP(b), M, Minv)
       ba == AdaptRef(WP(b), WP(a), M, Minv)
   IN /\ NearSeq(FxMatVec(ab, WP(a)), WP(b), Tight)
      /\ (a = b => NearSeq(ab, I3, Tight))
-     /\ NearSeq(MatMul3(ba, ab), I3, Tight)
+     /\ NearSeq(MatMul3T(ba, ab), I3, Tight)
 
 ConeOK(mth) ==
-  /\ NearSeq(ConeInvPublished(mth), Inv3(Cone(mth)), 24)              \* 5e-8: correctly rounded to seven decimals
-  /\ NearSeq(MatMul3(ConeInvPublished(mth), Cone(mth)), I3, 21)       \* hence only Published7 close to the identity
-  /\ (mth # "xyzscaling" => ~NearSeq(MatMul3(ConeInvPublished(mth), Cone(mth)), I3, 40))
+  /\ NearSeq(ConeInvPublished(mth), Inv3T(Cone(mth)), 24)              \* 5e-8: correctly rounded to seven decimals
+  /\ NearSeq(MatMul3T(ConeInvPublished(mth), Cone(mth)), I3, 21)       \* hence only Published7 close to the identity
+  /\ (mth # "xyzscaling" => ~NearSeq(MatMul3T(ConeInvPublished(mth), Cone(mth)), I3, 40))
 
 NegOK(n) ==
   CASE n = "white" ->      \* D50 with two digits of z transposed (0.82512) is not D50
@@ -71,7 +71,7 @@ NegOK(n) ==
          /\ ~NearSeq(Adapt("A", "D65", "xyzscaling"), Adapt("A", "D65", "vonkries"), 6)
     [] n = "digit" ->      \* published sRGB and Adobe RGB entries (Lindbloom): seven decimals of the derived ones,
                            \* and a change in the sixth decimal is told apart at the Published7 entry tolerance
-         LET s == RefRgbToXyz("srgb", "D65")  a == Inv3(RefRgbToXyz("adobe", "D65"))
+         LET s == RefRgbToXyz("srgb", "D65")  a == Inv3T(RefRgbToXyz("adobe", "D65"))
          IN /\ FxNear(s[1], FxDec(1, 0, <<4124, 5640>>), 24, 200) /\ FxNear(s[9], FxDec(1, 0, <<9503, 410>>), 24, 200)
             /\ FxNear(a[1], FxDec(1, 2, <<413, 6900>>), 24, 200)
             /\ MatBitsAbs(<<FxDec(1, 2, <<413, 6900>>)>>, <<a[1]>>) >= Need("space.hard=ref", "f64")
